@@ -296,10 +296,16 @@ class Forest:
             result = results.pop()
             self.result.merge(result)
 
+    def _check_index(self, idx):
+        if not 0 <= idx < self.solutions:
+            raise IndexError("Forest tree index out of range")
+
     def get_tree(self, idx=0):
+        self._check_index(idx)
         return LazyTree(self.result, idx)
 
     def get_nonlazy_tree(self, idx=0):
+        self._check_index(idx)
         return Tree(self.result, idx)
 
     def get_first_tree(self):
